@@ -1084,6 +1084,9 @@ def c05(tier):
         if res.get("counts", {}).get("infra"):
             raise Infra("race harness: %s" % res.get("notes")[:2])
         account(v, res, "delivery-vs-teardown-race(gated)")
+    # a subscriber whose incoming direction is dead, among live ones: nobody else notices
+    behs = broker_behaviours(v, "HalfSpec", 5 if not thorough else 6, "paths")
+    broker_replay(v, "C05", behs, "HalfSpec(paths,%d)" % (5 if not thorough else 6), own_tags={"C05", "C01", "C08", "C07"})
     # the first-packet classes of the Broker specification run in child processes: a dead child is the observation 'the broker process died'
     behs = broker_behaviours(v, "AdmitSpec", 3 if not thorough else 4, "cover")
     results = core.run_sharded(["brokerreplay"], behs, timeout=1200, died_is_result=True)
